@@ -16,6 +16,9 @@ difference-bound closure in zones.py.
 from . import cfg as cfgmod
 from . import effects
 
+import re as _re
+
+_PROMOTED_RE = _re.compile(r"^_1 = (.*?); _0 = &_1; $")
 UNIT = ("unit",)
 FNAMES = {}  # field place term -> source name of the field (for reports only)
 TRUE = ("int", 1)
@@ -51,10 +54,15 @@ def subterms(t, seen=None):
                 if isinstance(y, tuple):
                     st.append(y)
             continue
+        if x[0] in _MEM_HEADS:
+            continue  # memory versions are not values
         yield x
-        for y in x[1:]:
+        for y in (x[2:] if x[0] == "load" else x[1:]):
             if isinstance(y, tuple):
                 st.append(y)
+
+
+_MEM_HEADS = ("mem", "after", "mphi", "store", "m0")
 
 
 def mentions(t, pred):
@@ -254,6 +262,9 @@ class State:
         return out
 
     def add_fact(self, f):
+        # normalise negations so that the same condition is the same fact
+        while f[0] in ("eq", "ne") and isinstance(f[1], tuple) and f[1] and f[1][0] == "un" and f[1][1] == "Not" and f[2] in (0, 1):
+            f = (f[0], f[1][2], 1 - f[2])
         self.facts = self.facts | {f}
 
     def add_event(self, ev):
@@ -346,15 +357,21 @@ class Interp:
     MAX_STATES = 20000
     MAX_PER_BLOCK = 3000
 
-    def __init__(self, body, program=None, axioms=None, pure=None, param_names=True):
+    def __init__(self, body, program=None, axioms=None, pure=None, param_names=True, inline=None, hooks=None, uid_prefix=(), parent=None, assume=None):
         self.body = body
         self.program = program
+        self.inline = inline or set()
+        self.hooks = hooks or {}
+        self.uid_prefix = uid_prefix
+        self.parent = parent
+        self.assume = assume  # callable(I, st): add entry assumptions (type invariants)
         self.cfg = cfgmod.CFG(body)
         self.loops = self.cfg.loops()
         self.tys = {}
         self.block_states = {}  # bb -> list of entry states
         self.final_states = []  # states at `return`
         self.backedge_states = {}  # head -> list of states arriving over a back edge
+        self.discr_names = {}  # discriminant term -> {value: variant name}
         self.loop_entry = {}  # head -> list of environments on entry from outside (before havoc)
         self.diverged = []  # states that ended in a call without target / unreachable
         self.nstates = 0
@@ -406,6 +423,124 @@ class Interp:
         if mem:
             locs |= self.addr_taken_mut
         return (locs, mem)
+
+    def _loop_frame(self, head, st):
+        """places the loop body may write, as place terms in the entry state; None = anything"""
+        blks = self.loops[head]
+        locs, _ = self.loop_mod[head]
+        fr = []
+
+        def resolve(p, depth=0):
+            # a MIR place (json) whose base local is loop-invariant -> place term
+            base = p["l"]
+            if base in locs and base not in self.addr_taken_mut:
+                # defined inside the loop: follow a single reference definition
+                if depth > 4:
+                    return None
+                defs = []
+                for bb in blks:
+                    for s_ in self.body.blocks[bb]["stmts"]:
+                        if s_["k"] == "assign" and s_["place"]["l"] == base and not s_["place"]["p"]:
+                            defs.append(s_["rv"])
+                    tm = self.body.blocks[bb]["term"]
+                    if tm["k"] == "call" and tm["dest"]["l"] == base:
+                        return None
+                if len(defs) != 1:
+                    return None
+                rv = defs[0]
+                if rv["k"] in ("ref", "rawptr"):
+                    inner = resolve(rv["place"], depth + 1)
+                    if inner is None:
+                        return None
+                    # p = (*base).proj...: strip the leading deref
+                    if p["p"] and p["p"][0][0] == "deref":
+                        rest = {"l": -1, "p": p["p"][1:]}
+                        return self._extend(inner, rest, st, locs)
+                    return None
+                if rv["k"] == "use" and rv["op"]["k"] in ("copy", "move"):
+                    q = rv["op"]["place"]
+                    return resolve({"l": q["l"], "p": q["p"] + p["p"]}, depth + 1)
+                if rv["k"] == "cast" and rv["op"]["k"] in ("copy", "move"):
+                    q = rv["op"]["place"]
+                    return resolve({"l": q["l"], "p": q["p"] + p["p"]}, depth + 1)
+                return None
+            if base in locs:
+                return None
+            for e in p["p"]:
+                if e[0] == "index" and e[1] in locs:
+                    # loop-variant index: the whole indexed aggregate
+                    cut = p["p"][: p["p"].index(e)]
+                    return self.place_term(st, {"l": base, "p": cut})
+            return self.place_term(st, p)
+
+        for bb in blks:
+            blk = self.body.blocks[bb]
+            for s_ in blk["stmts"]:
+                if s_["k"] in ("assign", "set_discr") and any(e[0] == "deref" for e in s_["place"]["p"]):
+                    r = resolve(s_["place"])
+                    if r is None:
+                        return None
+                    fr.append(r)
+            tm = blk["term"]
+            if tm["k"] == "call" and tm["target"] is not None and not self._static_pure(tm):
+                for a in tm["args"]:
+                    if a["k"] not in ("copy", "move"):
+                        continue
+                    ty = a["place"].get("ty") or ""
+                    if not (ty.startswith(("&", "*")) or "Box<" in ty or "{closure" in ty or "dyn " in ty):
+                        continue
+                    r = resolve({"l": a["place"]["l"], "p": a["place"]["p"] + [["deref"]]})
+                    if r is None:
+                        return None
+                    fr.append(r)
+                if any(e[0] == "deref" for e in tm["dest"]["p"]):
+                    r = resolve(tm["dest"])
+                    if r is None:
+                        return None
+                    fr.append(r)
+            elif tm["k"] == "asm":
+                return None
+        return tuple(fr)
+
+    def _extend(self, base_term, rest, st, locs):
+        cur = base_term
+        for e in rest["p"]:
+            k = e[0]
+            if k == "deref":
+                return None
+            if k == "field":
+                cur = ("field", cur, e[1])
+            elif k == "index":
+                return cur
+            elif k == "downcast":
+                cur = ("down", cur, e[1])
+            else:
+                return cur
+        return cur
+
+    def uid(self, bb):
+        return bb if not self.uid_prefix else self.uid_prefix + (bb,)
+
+    def frame_of(self, args, argtys=None):
+        """places a callee can reach (and so possibly write) through its arguments; None = anything"""
+        fr = []
+        for n, a in enumerate(args):
+            if not isinstance(a, tuple) or not a:
+                continue
+            found = False
+            for s_ in subterms(a):
+                if s_[0] in ("ref", "optref"):
+                    fr.append(s_[1])
+                    found = True
+            if not found:
+                ty = (argtys[n] if argtys and n < len(argtys) else None) or self.tys.get(a) or ""
+                if ty.startswith(("&", "*", "std::boxed::Box<", "alloc::boxed::Box<")):
+                    fr.append(("deref", a))
+                elif a[0] in ("param", "call", "load", "proj", "phi", "out") and not ty:
+                    return None
+                elif any(x in ty for x in ("&mut", "*mut", "Box<", "dyn ")) or "{closure" in ty:
+                    return None
+        return tuple(fr)
 
     def _static_pure(self, t):
         """pre-pass approximation of `call` purity (no state available yet)"""
@@ -483,6 +618,17 @@ class Interp:
                     break
                 if places_disjoint(m[2], pl):
                     m = m[1]
+                    continue
+                break
+            if m[0] == "after" and len(m) > 3 and m[3] is not None:
+                # frame rule: a callee can only write what it can reach through its arguments
+                if all(places_disjoint(f, pl) for f in m[3]):
+                    m = m[1]
+                    continue
+                break
+            if m[0] == "mphi" and len(m) > 3 and m[3] is not None:
+                if all(places_disjoint(f, pl) for f in m[3]):
+                    m = m[2]
                     continue
                 break
             break
@@ -567,6 +713,13 @@ class Interp:
             t = ("gparam", o["param"])
             self.tys[t] = o["ty"]
             return t
+        if "uneval" in o and o["uneval"].get("promoted") is not None and o["ty"].startswith("&"):
+            pr = self.body.j.get("promoted") or []
+            n = o["uneval"]["promoted"]
+            if n < len(pr):
+                m_ = _PROMOTED_RE.match(pr[n])
+                if m_:
+                    return ("ref", ("constval", ("cst", m_.group(1), o["ty"].lstrip("&"))))
         if "uneval" in o:
             u = o["uneval"]
             t = ("assoc", u.get("trait") or u["path"], u.get("assoc_name"), tuple(u["args"]), u.get("promoted"))
@@ -637,7 +790,10 @@ class Interp:
                     return ("boxptr", a[2][2])
             return ("cast", ck, rv["ty"], a, rv.get("from"))
         if k == "discr":
-            return mk_discr(self.read_pl(st, self.place_term(st, rv["place"])))
+            d = mk_discr(self.read_pl(st, self.place_term(st, rv["place"])))
+            if rv.get("variants"):
+                self.discr_names[d] = {int(v): n for v, n in rv["variants"]}
+            return d
         if k == "agg":
             ak = rv["ak"]
             ops = tuple(self.operand(st, o) for o in rv["ops"])
@@ -681,7 +837,7 @@ class Interp:
         args = tuple(self.operand(st, a) for a in t["args"])
         gpath, rpath, trait, name = fn_names(fn)
         key = rpath or gpath
-        uid = bb
+        uid = self.uid(bb)
         res = None
         handled = False
         mem_before = st.mem
@@ -719,11 +875,20 @@ class Interp:
                     res = ("call", key, cargs + (("mem", self.reduce_mem(st.mem, places)),), None)
             else:
                 res = ("call", key, args, uid)
-        ev = Event("call", bb, callee=key, fn=fn, args=args, res=res, state=(st.facts, mem_before, st.path), extra={"pure": pure, "handled": handled, "dest": t["dest"], "name": name, "trait": trait, "gpath": gpath, "argvals": argvals})
+        ev = Event("call", bb, callee=key, fn=fn, args=args, res=res, state=(st.facts, mem_before, st.path), extra={"pure": pure, "handled": handled, "dest": t["dest"], "name": name, "trait": trait, "gpath": gpath, "argvals": argvals, "in": self.body.path if self.parent is not None else None, "uid": uid})
         st.add_event(ev)
+        tdef = (fn.get("resolved") or fn).get("def") if "indirect" not in fn else None
+        if not handled and tdef in self.inline and t["target"] is not None:
+            callee = self.body.crate.by_key.get(tdef)
+            if callee is None:
+                prog = getattr(self.body.crate, "program", None)
+                callee = prog.by_key.get(tdef) if prog is not None else None
+            if callee is not None and not any(mentions(a, lambda s_: s_[0] == "local") for a in args) and len(self.uid_prefix) < 3:
+                return self._inline(st, t, bb, callee, args, ev)
         if not pure:
             # memory and by-&mut locals may change
-            st.mem = ("after", st.mem, uid)
+            argtys = [effects._op_ty(self.body, a) for a in t["args"]]
+            st.mem = ("after", st.mem, uid, self.frame_of(args, argtys))
             for a, ao in zip(args, t["args"]):
                 self._havoc_mut_refs(st, a, uid, 0)
         dest = self.place_term(st, t["dest"])
@@ -731,7 +896,40 @@ class Interp:
         ty = t["dest"].get("ty")
         if ty and res not in self.tys:
             self.tys[res] = ty
-        return res
+        h = self.hooks.get("post_call")
+        if h is not None:
+            h(self, st, fn, args, bb, res, ev)
+        return [st]
+
+    def _inline(self, st, t, bb, callee, args, ev):
+        root = self
+        while root.parent is not None:
+            root = root.parent
+        sub = Interp(callee, self.program, axioms=self.extra_axioms, pure=self.extra_pure, inline=self.inline, hooks=self.hooks, uid_prefix=self.uid_prefix + (bb,), parent=self)
+        sub.tys = self.tys
+        env = {}
+        for i, a in enumerate(args):
+            env[i + 1] = a
+        st0 = State(env, st.mem, st.facts, st.events, st.path, ())
+        st0.nevents = st.nevents
+        sub.run(st0)
+        root.nstates += sub.nstates
+        if root.nstates > self.MAX_STATES:
+            raise Budget("%s: more than %d abstract states (with inlining)" % (root.body.path, self.MAX_STATES))
+        ev.extra["inlined"] = True
+        outs = []
+        for fs in sub.final_states:
+            ns = st.fork()
+            ns.mem, ns.facts, ns.events, ns.nevents = fs.mem, fs.facts, fs.events, fs.nevents
+            res = fs.env.get(0, UNIT)
+            dest = self.place_term(ns, t["dest"])
+            self.write_pl(ns, dest, res, bb, None, record=not place_is_local(dest))
+            outs.append(ns)
+        for ds in sub.diverged:
+            self.diverged.append(ds)
+        self.inlined_subs = getattr(self, "inlined_subs", [])
+        self.inlined_subs.append(sub)
+        return outs
 
     def reduce_mem(self, mem, places):
         """drop the most recent stores that cannot be seen through `places` (ownership axiom:
@@ -756,8 +954,11 @@ class Interp:
                 self._havoc_mut_refs(st, x, uid, depth + 1)
 
     # ---- driver --------------------------------------------------------------------------------
-    def run(self):
-        st0 = self.initial_state()
+    def run(self, st0=None):
+        if st0 is None:
+            st0 = self.initial_state()
+            if self.assume is not None:
+                self.assume(self, st0)
         work = [(0, st0)]
         while work:
             bb, st = work.pop()
@@ -774,18 +975,22 @@ class Interp:
                     continue
                 locs, mem = self.loop_mod[bb]
                 self.loop_entry.setdefault(bb, []).append(dict(st.env))
+                frame = self._loop_frame(bb, st) if mem else None
                 for l in locs:
                     if l in st.env:
                         if st.env[l][0] == "rangeiter":
                             continue  # abstract value "somewhere in [start, end)" is loop invariant
-                        t = ("phi", bb, l)
+                        t = ("phi", self.uid(bb), l)
                         ty = self.body.locals[l]["ty"]
                         self.tys[t] = ty
                         st.env[l] = t
                 if mem:
-                    st.mem = ("mphi", bb, st.mem)
+                    st.mem = ("mphi", self.uid(bb), st.mem, frame)
                 st.active = st.active + (bb,)
                 st.add_event(Event("loop", bb))
+                h = self.hooks.get("loop_head")
+                if h is not None:
+                    h(self, st, bb)
             lst = self.block_states.setdefault(bb, [])
             if len(lst) >= self.MAX_PER_BLOCK:
                 raise Budget("%s: more than %d states at bb%d" % (self.body.path, self.MAX_PER_BLOCK, bb))
@@ -825,11 +1030,11 @@ class Interp:
             self.final_states.append(st)
             return []
         if k == "call":
-            self.call(st, t, bb)
+            outs = self.call(st, t, bb)
             if t["target"] is None:
-                self.diverged.append(st)
+                self.diverged.extend(outs)
                 return []
-            return [(t["target"], st)]
+            return [(t["target"], o) for o in reversed(outs)]
         if k == "drop":
             return [(t["target"], st)]
         if k == "assert":
@@ -882,7 +1087,7 @@ class Interp:
                 if "op" in o:
                     ins.append(self.operand(st, o["op"]))
             st.add_event(Event("asm", bb, args=tuple(ins), extra=t))
-            st.mem = ("after", st.mem, bb)
+            st.mem = ("after", st.mem, self.uid(bb), None)
             for n, o in enumerate(t["operands"]):
                 if o.get("place"):
                     pl = self.place_term(st, o["place"])
@@ -897,6 +1102,9 @@ class Interp:
     @staticmethod
     def _contradicts(facts, f):
         kind, t, v = f
+        while kind in ("eq", "ne") and isinstance(t, tuple) and t and t[0] == "un" and t[1] == "Not" and v in (0, 1):
+            t, v = t[2], 1 - v
+        facts = [x for x in facts if x[0] in ("eq", "ne")]
         if kind == "eq":
             for (k2, t2, v2) in facts:
                 if t2 == t:
